@@ -20,7 +20,7 @@ case "$ID" in
     if ! cargo build --offline >target/build-dev.log 2>&1; then
       echo "HARNESS-ERROR: unoptimised build of l21sim failed"; grep -E "^error" -A8 target/build-dev.log | head -40; exit 2
     fi
-    if [ "$ID" = C10 ]; then FIRST=3; NR=1; else FIRST=12; NR=3; fi
+    if [ "$ID" = C10 ]; then FIRST=3; NR=1; else FIRST=13; NR=3; fi
     OUTD=$(VERIF_NO_EVIDENCE=1 ./target/debug/l21sim check "$ID" --tier "$TIER" --first $FIRST --runs $NR 2>&1); RCD=$?
     echo "$OUTD" | grep -E "^VIOLATION|^  class=|^KNOWN-FINDING|^HARNESS" 
     echo "$OUTD" | grep -E "^check=" | sed 's/^check=/unoptimised-build scale pass: check=/'
